@@ -31,8 +31,10 @@ COPY_DOC = {"traverse", "get_row", "get_cell", "traverse_columns", "get_columns"
             "Row.get_cell"}
 GETTERS = ["get_cell", "get_cell-keep", "get_cell-noclone", "get_row", "get_cells", "get_cells-flat", "get_rows", "traverse",
            "rows", "cells", "get_column", "get_columns", "traverse_columns", "columns", "get_column_cells", "Row.get_cell",
-           "Row.traverse", "Row.traverse-range", "Row.cells", "Row.get_cells"]
+           "Row.traverse", "Row.traverse-range", "Row.cells", "Row.get_cells", "get_column_cells-filter", "get_cells-filter", "get_rows-filter"]
 MUTS = ["set_value", "clear", "style", "repeated", "append", "text"]
+FILTERS = [{"content": "^$"}, {"content": ".*"}, {"content": "a"}, {"content": "1"}, {"content": "x*"}, {"cell_type": "all"}, {"cell_type": "float"},
+           {"cell_type": "string"}, {"style": "ce1"}, {"content": "", "cell_type": "all"}, {"content": "^$", "style": None}]
 
 
 def ser(o):
@@ -178,6 +180,37 @@ def run_case(case, ctx):
             res = t.get_column_cells(alpha(x) if form == "s" else x)
             expect_cells = [(x, yy) for yy in range(h)]
             expanded = False  # row repeats are expanded; the cells keep their own (horizontal) count like get_cell()
+        elif getter.endswith("-filter"):
+            # filtered reads: which cells survive is the filter's business; every survivor must be stamped with the
+            # coordinates it came from, hold what the grid holds there, and appear in coordinate order
+            flt = FILTERS[case.get("flt", 0) % len(FILTERS)]
+            if getter == "get_column_cells-filter":
+                res = t.get_column_cells(alpha(x) if form == "s" else x, **flt)
+                allowed = [(x, yy) for yy in range(h)]
+                expanded = False
+            elif getter == "get_cells-filter":
+                res = t.get_cells(area, flat=True, **flt)
+                allowed = [(xx, yy) for yy in range(y, min(tt + 1, h)) for xx in range(x, z + 1)]
+            else:
+                res = flat([r.get_cells(**flt) for r in t.get_rows((y, tt), **{k: v for k, v in flt.items() if k != "cell_type"})])
+                allowed = [(xx, yy) for yy in range(y, min(tt + 1, h)) for xx in range(0, max(w, 1) + 12)]
+            objs = flat(res)
+            stamps = []
+            for o in objs:
+                ctx.check(isinstance(o, Cell) and o.x is not None and o.y is not None, ("C08", getter, "xy-stamp"),
+                          f"{getter}({flt}) returned a cell stamped ({getattr(o, 'x', None)},{getattr(o, 'y', None)})", case)
+                ctx.check((o.x, o.y) in allowed, ("C08", getter, "xy-stamp"),
+                          f"{getter}({flt}) returned a cell stamped ({o.x},{o.y}) outside the requested area", case)
+                mv_, ms_ = m.cell(o.x, o.y)
+                ctx.check(same_value(o.get_value(), read_value(mv_)) and o.style == ms_, ("C08", getter, "content"),
+                          f"{getter}({flt}): cell stamped ({o.x},{o.y}) holds ({o.get_value()!r},{o.style!r}), grid ({mv_!r},{ms_!r})", case)
+                stamps.append((o.y, o.x))
+            ctx.check(stamps == sorted(set(stamps)), ("C08", getter, "order"), f"{getter}({flt}) survivors out of order or duplicated: {stamps}", case)
+            ctx.check(ser(t) == before, ("C08", getter, "read-changed-table"), "table serialisation changed by a read", case)
+            if objs:
+                ctx.nontrivial((spec, pre, getter, x, y, dx, dy, form, case.get("flt", 0)))
+            ctx.count("filtered-survivors:" + ("some" if objs else "none"))
+            return
         else:  # Row.*
             # the receiver is a copy of the row or (live) the stored row itself
             row = t.get_row(y, clone=False) if case.get("live") else t.get_row(y)
@@ -310,7 +343,7 @@ def run_shard(ctx):
         "spec": st_initial(()), "pre": st.lists(pre_op, max_size=4), "getter": st.sampled_from(GETTERS),
         "x": st.integers(0, 8), "y": st.integers(0, 8), "dx": st.integers(0, 4), "dy": st.integers(0, 4),
         "form": st.sampled_from(["t", "s"]), "mut": st.sampled_from(MUTS), "mv": vi, "mn": st.integers(2, 4),
-        "pick": st.integers(0, 30), "live": st.booleans(),
+        "pick": st.integers(0, 30), "live": st.booleans(), "flt": st.integers(0, 10),
     })
 
     def mk():
